@@ -171,6 +171,66 @@ func c15scenario(c c15cfg) *explore.Scenario {
 	return sc
 }
 
+// c15long: a long regular stream of tiny datagrams.  Per-arrival accounting errors (rounding,
+// truncation in the wrong direction) are far below one byte each and only show after hundreds
+// of arrivals.  Oracle: an ideal bucket that starts full when the filter is created and is charged
+// for everything the filter forwards must never go negative - this is equivalent to the envelope
+// "bytes in any interval <= burst + rate x length".
+func c15long(rate, burst int, gap time.Duration, size, n int) *explore.Scenario {
+	sc := &explore.Scenario{Name: fmt.Sprintf("tbf long stream rate=%d burst=%d gap=%v size=%d n=%d", rate, burst, gap, size, n), Bound: 0}
+	sc.Cfg.Horizon = 600 * time.Second
+	sc.Cfg.Strict = true
+	sc.Cfg.MaxSteps = 5000000
+	sc.Make = func() (func(), func(*zzvsched.Exec) (string, *explore.Violation)) {
+		rec := vnet.ZZNewRecNIC()
+		var t0 time.Duration
+		finished := false
+		body := func() {
+			t0 = zzvsched.Elapsed()
+			f, err := vnet.NewTokenBucketFilter(rec, vnet.TBFRate(rate), vnet.TBFMaxBurst(burst), vnet.TBFQueueSizeInBytes(50000))
+			if err != nil {
+				panic(err)
+			}
+			for i := 0; i < n; i++ {
+				zzvsched.Sleep(gap)
+				vnet.ZZPush(f, vnet.ZZUDPChunk("10.0.0.1:1", "10.0.0.2:2", make([]byte, size)))
+			}
+			zzvsched.WaitIdle()
+			finished = true
+		}
+		check := func(ex *zzvsched.Exec) (string, *explore.Violation) {
+			out := fmt.Sprintf("forwarded %d of %d", len(rec.Got), n)
+			if len(ex.Panics) > 0 {
+				return out, &explore.Violation{Sig: "C15 panic", Msg: sc.Name + ": panic: " + ex.Panics[0].Value}
+			}
+			if !finished {
+				if ex.HorizonHit {
+					return out + " HORIZON", nil
+				}
+				return out, &explore.Violation{Sig: "C15 blocked", Msg: sc.Name + fmt.Sprint(": blocked: ", ex.Parked)}
+			}
+			tokens := float64(burst)
+			last := t0
+			sum := 0
+			for i, g := range rec.Got {
+				tokens = tokens + float64(rate)/8*(g.At-last).Seconds()
+				if tokens > float64(burst) {
+					tokens = float64(burst)
+				}
+				last = g.At
+				tokens -= float64(len(g.Payload))
+				sum += len(g.Payload)
+				if tokens < -1e-6 {
+					return out, &explore.Violation{Sig: "C15 envelope-exceeded long-stream", Msg: fmt.Sprintf("%s: after forwarding datagram %d at %v (%d bytes since %v) an ideal bucket of %d B refilled at %d bit/s would be overdrawn by %.2f B: some interval carried more than burst + rate x length", sc.Name, i, g.At, sum, t0, burst, rate, -tokens)}
+				}
+			}
+			return out, nil
+		}
+		return body, check
+	}
+	return sc
+}
+
 func init() {
 	register(&Check{ID: "C15",
 		Scenarios: func(tier string) []*explore.Scenario {
@@ -187,6 +247,19 @@ func init() {
 					out = append(out, c15scenario(c15cfg{rate: r, burst: b, queue: 50000, n: n - 1, setter: "rate", bound: 1}))
 					out = append(out, c15scenario(c15cfg{rate: r, burst: b, queue: 50000, n: n - 1, setter: "burst", bound: 1}))
 				}
+			}
+			// long regular streams: gaps that give a fractional per-arrival credit in every direction
+			ln := 1500
+			if tier == "thorough" {
+				ln = 6000
+			}
+			for _, g := range []time.Duration{300 * time.Microsecond, 600 * time.Microsecond, 800 * time.Microsecond, 1300 * time.Microsecond, 1700 * time.Microsecond, 2500 * time.Microsecond} {
+				for _, sz := range []int{1, 2} {
+					out = append(out, c15long(8*vnet.KBit, 100, g, sz, ln))
+				}
+			}
+			for _, g := range []time.Duration{3 * time.Microsecond, 7 * time.Microsecond, 11 * time.Microsecond} {
+				out = append(out, c15long(1*vnet.MBit, 100, g, 1, ln))
 			}
 			return out
 		},
